@@ -89,11 +89,16 @@ fn step(ind: &mut Writer<Vec<u8>>, plain: &mut Writer<Vec<u8>>, s: &Spec, prev_t
 /// Canonical key of the indentation state: what two probe comments produce on a clone (reveals
 /// should_line_break and the current indent length, the only fields the future depends on).
 fn probe(w: &Writer<Vec<u8>>) -> Vec<u8> {
-    let mut c = w.clone();
-    let n = c.get_mut().len();
-    let _ = c.write_event(Event::Comment(quick_xml::events::BytesText::new("p")));
-    let _ = c.write_event(Event::Comment(quick_xml::events::BytesText::new("p")));
-    c.get_mut()[n..].to_vec()
+    // a panic while probing is a panic of the writer: it becomes a distinct key here and is reported by the
+    // next transition from this state (every event is written under catch_unwind there)
+    guarded_mut(|| {
+        let mut c = w.clone();
+        let n = c.get_mut().len();
+        let _ = c.write_event(Event::Comment(quick_xml::events::BytesText::new("p")));
+        let _ = c.write_event(Event::Comment(quick_xml::events::BytesText::new("p")));
+        c.get_mut()[n..].to_vec()
+    })
+    .unwrap_or_else(|p| format!("PANIC {}", p).into_bytes())
 }
 
 fn bfs(acc: &mut Acc, order: (u32, u64), ch: u8, size: usize, max_depth_chars: usize) {
